@@ -153,6 +153,10 @@ func MutateAttestation(r *rand.Rand, msg, att []byte, enabled []*ref.Key, t int)
 		r.Read(b)
 		return b
 	}
+	if len(enabled) > t && r.Intn(8) == 0 {
+		// over-signed: more than threshold-many signatures, every one honest, enabled, distinct and in order
+		return ref.HonestAttestation(msg, ref.SortByAddr(enabled)[:t+1+r.Intn(len(enabled)-t)], r.Intn(3))
+	}
 	signers := ref.SortByAddr(enabled)[:t]
 	var outsider *ref.Key
 	for _, k := range AttesterPool {
